@@ -196,7 +196,7 @@ PROPS = {
     },
     "C06": {
         "manifest": {
-            "text": "Lean 4 theorems on the interpreter model's signature opcodes: multisigLoop_eq_walk + walk_iff_matches (the CHECKMULTISIG loop succeeds exactly when the signatures match keys in order - an order-preserving injection exists), nulldummy_logic, empty_signature_is_false, encoding_checks_need_flags. Correspondence: fresh signatures (library signing path and raw ECDSA) over varied transactions x key forms x 12 hash types x all 64 subsets of the signature flags x both eras, OP_CODESEPARATOR at every position, exhaustive m-of-n <= 3 multisig arrangements with correct/incorrect/empty signatures; the real interpreter's verdict, error code and every step snapshot must equal the Lean model's (executable secp256k1/DER/SHA-256), and divergence is a property failure.",
+            "text": "Lean 4 theorems incl. checkmultisig_iff_matches (the whole OP_CHECKMULTISIG opcode: with well-formed counts and no encoding / null-dummy / null-fail / FORKID flag it pops everything, counts the keys as operations and pushes true iff there is an order-preserving assignment of signatures to keys under which each verifies over the script code with signatures and separators removed, else false - never an error). Lean 4 theorems on the interpreter model's signature opcodes: multisigLoop_eq_walk + walk_iff_matches (the CHECKMULTISIG loop succeeds exactly when the signatures match keys in order - an order-preserving injection exists), nulldummy_logic, empty_signature_is_false, encoding_checks_need_flags. Correspondence: fresh signatures (library signing path and raw ECDSA) over varied transactions x key forms x 12 hash types x all 64 subsets of the signature flags x both eras, OP_CODESEPARATOR at every position, exhaustive m-of-n <= 3 multisig arrangements with correct/incorrect/empty signatures; the real interpreter's verdict, error code and every step snapshot must equal the Lean model's (executable secp256k1/DER/SHA-256), and divergence is a property failure.",
             "note": "Trusted: Lean kernel + standard axioms, harness/generators/comparer, driver glue, executable crypto (validated on go-bk vectors and by agreement on every generated case).",
             "technique": "executable Lean model + Lean 4 proofs on the multisig matching loop and flag logic + step-by-step differential correspondence check",
         },
